@@ -350,8 +350,8 @@ def _raw_leaf_value(rng, leaf):
                     if n >= 0:
                         cands += ['abcdefghijklmnopqrstuvwxyz'[:n]] * 2
         s = rng.choice(cands)
-        if base == 'anyURI' and not s:
-            s = 'a'
+        if base == 'anyURI':
+            s = s.strip() or 'a'          # anyURI literals are whitespace-collapsed: blanks at the ends are not part of the value
         return ['text', s]
     if base == 'decimal':
         cands = list(DEC_POOL)
